@@ -81,6 +81,33 @@ let handle fields impl : string option * string list =
       | Some _ -> if impl = "ok " ^ h then [] else ["version-framing-mismatch sender and receiver disagree: " ^ impl]
       | None -> if starts impl "err" then [] else ["version-transfer-without-common-version " ^ impl] in
     (Some m, mons)
+  | ["hist"; own; steps] ->
+    let parse part = match String.split_on_char ':' part with
+      | [i; kind; pv] -> (int_of_string i, kind, pv)
+      | _ -> failwith "hist step" in
+    let st = List.map parse (String.split_on_char ';' steps) in
+    let (rs, _) = gos_history (vl own) empty_cache (List.map (fun (i, kind, pv) -> (n_ i, entry kind pv)) st) in
+    let m = Printf.sprintf "ok r=%s own=%s" (String.concat "," (List.map show_r rs)) (String.concat "," (List.map (fun _ -> own) st)) in
+    let irs = String.split_on_char ',' (field impl "r") and iowns = String.split_on_char ',' (field impl "own") in
+    (* specification, independent of the model: own list untouched after every call; a peer without entry that is asked
+       about for the first time gets own's first-listed version; a pv peer asked about for the first time gets the max *)
+    let seen = Hashtbl.create 8 in
+    let mons = List.concat (List.mapi (fun k (i, kind, pv) ->
+        let r = (try List.nth irs k with _ -> "?") and o = (try List.nth iowns k with _ -> "?") in
+        let fresh = not (Hashtbl.mem seen i) in
+        Hashtbl.replace seen i ();
+        (if o <> own then [Printf.sprintf "own-version-list-mutated after call %d the instance lists %s instead of %s" k o own] else []) @
+        (if fresh && kind = "missing" then
+           (match ivl own with
+            | v0 :: _ when r <> string_of_int v0 -> [Printf.sprintf "version-missing-entry-not-base call %d answered %s, base is %d" k r v0]
+            | _ -> [])
+         else if fresh && kind = "list" then
+           (match spec_max (ivl own) (ivl pv) with
+            | Some mx when r <> string_of_int mx -> [Printf.sprintf "version-not-max-common history call %d spec=%d impl=%s" k mx r]
+            | None when r <> "e" -> [Printf.sprintf "version-ok-without-common-version history call %d impl=%s" k r]
+            | _ -> [])
+         else [])) st) in
+    (Some m, mons)
   | ["live"; a; bb; _] ->
     let r = negotiate (vl a) (vl bb) in
     let offer, find = match r with
